@@ -1,6 +1,7 @@
 INIT Init
 NEXT Next
 CONSTANTS
+  Mutation = "none"
   NMol = 2
   NJobs = 3
   Pipelines = {"single", "multi"}
